@@ -13,6 +13,8 @@ def run(ctx):
     D.who2_who_may_write(ctx, R.WHO2_TABLE)
     R.flw6_recovery_ignores_staging(ctx)
     R.pan1_awaited_jobs_report_failures(ctx)
+    D.ord11_files_before_catalogue_entry(ctx)
+    D.lit3_wal_file_names(ctx)
     return ctx.finish(
         'Static analysis of compiler MIR: a crash between any two file effects leaves either the '
         'old catalogue with all its files and log segments or the new one, because (a) blobs are '
